@@ -8,7 +8,7 @@ import scipy.stats as ss
 
 import elfi.methods.mcmc as mcmc
 from elfi.methods.bo.utils import CostFunction, minimize
-from elfi.methods.utils import resolve_sigmas
+from elfi.methods.utils import numgrad, resolve_sigmas
 
 logger = logging.getLogger(__name__)
 
@@ -822,6 +822,27 @@ class ExpIntVar(MaxVar):
                                   np.finfo(float).max,
                                   loss_theta_new)
         return loss_theta_new
+
+    def evaluate_gradient(self, theta_new, t=None):
+        """Evaluate the acquisition function's gradient at theta_new.
+
+        The gradient is computed numerically (see the note in acquire); the analytical
+        gradient inherited from MaxVar belongs to a different acquisition function.
+
+        Parameters
+        ----------
+        theta_new : array_like
+            Evaluation coordinates (a single point).
+        t : int, optional
+            Current iteration, (unused).
+
+        Returns
+        -------
+        array_like
+            Gradient of the expected loss's term dependent on theta_new.
+
+        """
+        return numgrad(self.evaluate, theta_new, replace_neg_inf=False)
 
 
 class UniformAcquisition(AcquisitionBase):
